@@ -362,6 +362,27 @@ def check(idx: Index, rep: Report, tier: str) -> str:
         else:
             r4.ok(f.fq, f"{f.loc} op.walk() purge for region ops, remove(op) otherwise")
 
+    # ---- R4b: nothing reachable from the erased operation is (re-)queued while it is being purged
+    r4b = rep.rule("C11.R4", "while the erased operation and its nested operations are being removed from the worklist, no operation reached through a nested operation is pushed (its defining op may be nested in the erased op too and already purged)", floor=1)
+    wcls = idx.cls(PR, "PatternRewriteWalker")
+    wmeths = [m_ for ms in wcls.methods.values() for m_ in (ms if isinstance(ms, list) else [ms])]
+    pushers = {m.name for m in wmeths if any(unparse(c.func) == "self._worklist.push" for c in calls_in(m.node))}
+    for _ in range(3):
+        pushers |= {m.name for m in wmeths if any(isinstance(c.func, ast.Attribute) and unparse(c.func.value) == "self" and c.func.attr in pushers for c in calls_in(m.node))}
+    purge_loops = [w for w in walk_local(f.raw_node) if isinstance(w, ast.For) and unparse(w.iter) == f"{opn}.walk()" and any(unparse(c.func) == "self._worklist.remove" for c in calls_in(w))]
+    bad_push = []
+    for w in purge_loops:
+        tgt = unparse(w.target)
+        for c in calls_in(w):
+            is_push = unparse(c.func) == "self._worklist.push" or (isinstance(c.func, ast.Attribute) and unparse(c.func.value) == "self" and c.func.attr in pushers)
+            if is_push and any(isinstance(x, ast.Name) and x.id == tgt for a_ in c.args for x in ast.walk(a_)):
+                bad_push.append(c)
+    if bad_push:
+        c = bad_push[0]
+        r4b.fail(f.fq + ":purge", Finding("C11.R4", f.fq, "push-during-purge", f"`{unparse(c)}` queues operations reached from a nested operation inside the loop that purges `{opn}.walk()`: the walk is pre-order, so the single-use definition of a nested operand has already been removed when its user is visited and is pushed back - an erased, parent-less operation stays in the worklist and is handed to the patterns", f"{f.module.relpath}:{c.lineno}"))
+    elif purge_loops:
+        r4b.ok(f.fq + ":purge", f"{f.loc} the purge loop queues nothing")
+
     # ---- R5: driver loops
     r5 = rep.rule("C11.R5", "the worklist loop resets and accumulates the action flag around every match; rewrite_region re-walks while any walk or post-walk step changed the IR", floor=3)
     f = idx.func(PR, "PatternRewriteWalker._process_worklist")
